@@ -521,7 +521,7 @@ class Executor:
         if ty is TAny:
             inj, inv = self.any_fns(st, v.ty)
             t = inj(v.t)
-            if not getattr(self, 'quiet', False):
+            if not self.mentions_bound(v.t):
                 st.assume(inv(t) == v.t)
             return V(t, TAny)
         if isinstance(ty, TOpt):
@@ -553,6 +553,28 @@ class Executor:
                 and isinstance(ty.elem, TTuple):
             raise Unsupported('list element conversion %s -> %s' % (v.ty, ty))
         raise Unsupported('cannot coerce %s to %s' % (v.ty, ty))
+
+    bound: list = []
+
+    def mentions_bound(self, t: Any) -> bool:
+        if not self.bound:
+            return False
+        ids = {b.get_id() for b in self.bound}
+        stack = [t]
+        seen = set()
+        while stack:
+            x = stack.pop()
+            i = x.get_id()
+            if i in seen:
+                continue
+            seen.add(i)
+            if i in ids:
+                return True
+            if z3.is_app(x):
+                stack.extend(x.children())
+            elif z3.is_quantifier(x):
+                stack.append(x.body())
+        return False
 
     def any_fns(self, st: State, ty: T) -> tuple[Any, Any]:
         """Injection of sort(ty) into Any and its left inverse; the
@@ -628,8 +650,8 @@ class Executor:
 
     def known(self, st: State, v: V) -> None:
         """Typing facts for a value read from the heap or a container."""
-        if getattr(self, 'quiet', False):
-            return      # inside a spec: terms may mention bound variables
+        if getattr(self, 'quiet', False) and self.mentions_bound(v.t):
+            return      # the term mentions a quantified variable
         ty = v.ty
         if isinstance(ty, TRef):
             st.assume(z3.And(v.t >= 0, v.t < st.alloc))
